@@ -1,6 +1,88 @@
-"""Extra deciders that are not Verus units (syntactic census, declaration-shape checks).
-Each returns dicts {obligation, status: ok|fail|undecided, engine, what, detail, trusted[], cmd}."""
+"""Extra deciders that are not Verus units: syntactic declaration-shape obligations (serde-derive behaviour itself is
+assumption A-serde) and censuses.  Each returns dicts {obligation, status: ok|fail|undecided, engine, what, detail, trusted[], cmd}."""
+import json
+import subprocess
+from vxlib import call_extract, REPO, Undecided
+
+
+def decl(file, name):
+    r = call_extract({"repo": REPO, "items": [{"kind": "decl", "file": file, "name": name}]})[0]
+    if not r.get("ok"):
+        raise Undecided(r.get("error"))
+    return r
+
+
+def has_attr(attrs, needle):
+    return any(needle in a for a in attrs)
+
+
+def ob(obligation, ok, what, detail=""):
+    return {"obligation": obligation, "status": "ok" if ok else "fail", "engine": "declaration-shape (vx-extract decl + python)",
+            "what": what, "detail": detail if not ok else "", "trusted": ["A-serde: behaviour of serde_derive for the attribute subset used (never proved)"],
+            "cmd": "vx-extract decl"}
+
+
+def c15_shape():
+    out = []
+    L = "graphql_client/src/lib.rs"
+    r = decl(L, "Response")
+    f = {x["name"]: x for x in r["fields"]}
+    out.append(ob("C15.2.response_optional_members", set(f) == {"data", "errors", "extensions"} and all(x["ty"].startswith("Option<") for x in r["fields"]),
+                  "Response has exactly data / errors / extensions, all Option (absent or null accepted)", json.dumps(r["fields"])))
+    out.append(ob("C15.2.response_derives", has_attr(r["attrs"], "Serialize") and has_attr(r["attrs"], "Deserialize") and not has_attr(r["attrs"], "deny_unknown_fields")
+                  and not any(x["attrs"] for x in r["fields"]),
+                  "Response derives both Serialize and Deserialize, no deny_unknown_fields, no asymmetric field attribute", json.dumps(r["attrs"])))
+    e = decl(L, "Error")
+    ef = {x["name"]: x for x in e["fields"]}
+    req = [n for n, x in ef.items() if not x["ty"].startswith("Option<")]
+    out.append(ob("C15.2.error_only_message_required", req == ["message"] and set(ef) == {"message", "locations", "path", "extensions"},
+                  "Error.message is the only required member; locations / path / extensions are Option", json.dumps(e["fields"])))
+    out.append(ob("C15.2.error_derives", has_attr(e["attrs"], "Serialize") and has_attr(e["attrs"], "Deserialize") and not has_attr(e["attrs"], "deny_unknown_fields")
+                  and not any(x["attrs"] for x in e["fields"]), "Error derives both directions, ignores unknown members", json.dumps(e["attrs"])))
+    p = decl(L, "PathFragment")
+    vs = [(v["name"], [x["ty"] for x in v["fields"]]) for v in p["variants"]]
+    out.append(ob("C15.2.path_fragment_untagged_key_before_index", has_attr(p["attrs"], "serde(untagged)") and vs == [("Key", ["String"]), ("Index", ["i32"])],
+                  "PathFragment is untagged with Key(String) before Index(i32): strings and integers mix in a path", json.dumps(vs)))
+    lo = decl(L, "Location")
+    out.append(ob("C15.2.location_shape", [(x["name"], x["ty"]) for x in lo["fields"]] == [("line", "i32"), ("column", "i32")]
+                  and has_attr(lo["attrs"], "Serialize") and has_attr(lo["attrs"], "Deserialize"), "Location {line, column}", json.dumps(lo["fields"])))
+    return out
+
+
+def c16_shape():
+    out = []
+    S = "graphql_client/src/serde_with.rs"
+    e = decl(S, "IntOrString")
+    vs = [(v["name"], [x["ty"] for x in v["fields"]]) for v in e["variants"]]
+    out.append(ob("C16.2", has_attr(e["attrs"], "serde(untagged)") and has_attr(e["attrs"], "Deserialize") and vs == [("Int", ["i64"]), ("Str", ["String"])],
+                  "IntOrString is untagged with exactly Int(i64), Str(String): floats, booleans, arrays and objects are rejected (A-serde)", json.dumps(vs)))
+    a = decl(S, "deserialize_id")
+    b = decl(S, "deserialize_option_id")
+    out.append(ob("C16.5", "->Result<String,D::Error>" in a["sig"] and "->Result<Option<String>,D::Error>" in b["sig"] and a["vis"].startswith("pub") and b["vis"].startswith("pub"),
+                  "the two helpers named by the emitted deserialize_with attributes exist in graphql_client::serde_with with return types String / Option<String>",
+                  a["sig"] + " | " + b["sig"]))
+    return out
+
+
+def c05_shape():
+    L = "graphql_client/src/lib.rs"
+    q = decl(L, "QueryBody")
+    names = []
+    for x in q["fields"]:
+        ren = [a for a in x["attrs"] if "rename=" in a]
+        names.append(ren[0].split('rename="')[1].split('"')[0] if ren else x["name"])
+    return [ob("C05.1.query_body_members", sorted(names) == ["operationName", "query", "variables"] and has_attr(q["attrs"], "Serialize"),
+               "QueryBody serializes exactly the members variables, query, operationName", json.dumps(names))]
 
 
 def extra_checks(pid, tier):
+    try:
+        if pid == "C15":
+            return c15_shape()
+        if pid == "C16":
+            return c16_shape()
+        if pid == "C05":
+            return c05_shape()
+    except Undecided as e:
+        return [{"obligation": pid + ".shape", "status": "undecided", "engine": "declaration-shape", "detail": str(e)}]
     return []
